@@ -4,6 +4,7 @@ import (
 	"crypto/sha256"
 	"fmt"
 	gobig "math/big"
+	"strconv"
 	"strings"
 	"sync"
 
@@ -188,6 +189,23 @@ func genC15(g *Rng, tier string, emit func(Op)) {
 				t["a_disclosed"].(T)["1"] = I(x)
 				emit(verifyDOp(kp.id, t, ctx, nonce, false, "preimage-for-signed-digest", "reject").with("fkey", "C15/attribute-hash-threshold"))
 			}
+		}
+	}
+	// the attribute hash is over the magnitude: a negative number longer than the message length
+	// never stands for its absolute value, at whatever position of the block (first included)
+	{
+		kp := fixedKey("k1024a", false)
+		for j := 0; j < 3; j++ {
+			ms := []*big.Int{g.bits(100), g.bits(100), g.bits(100)}
+			ms[j] = g.exactBits(int(kp.pk.Params.Lm) + 1 + g.intn(300))
+			sig, err := gabi.SignMessageBlock(kp.sk, kp.pk, ms)
+			if err != nil {
+				panic(err)
+			}
+			emit(sigOp(kp.id, sig, ms, "oversized-message-at-"+strconv.Itoa(j), "accept"))
+			neg := append([]*big.Int{}, ms...)
+			neg[j] = new(big.Int).Neg(ms[j])
+			emit(sigOp(kp.id, sig, neg, "negated-oversized-message-at-"+strconv.Itoa(j), "reject").with("fkey", "C15/negated-oversized-message"))
 		}
 	}
 	// "differs whenever any integer differs", at the level of proofs: the group elements a proof
